@@ -59,13 +59,14 @@ fn ulp(x: f64) -> f64 {
 pub fn run(mut run: Run) -> i32 {
     let quick = run.ctx.quick();
     let polys = poly_family(quick);
-    run.rule = "every lattice polygon (all G3 rings, G4 sample, polygons with 1-2 holes incl. touching) x every combination of ring windings x offsets {0,+-1e8 mixed} x scales {1,2^-20}: \
+    run.rule = "every lattice polygon (all G3 rings, G4 sample, polygons with 1-2 holes incl. touching) x every combination of ring windings x offsets {0,+-1e8 mixed} x scales {1,2^-20,2^-30,2^-200,2^60}: \
         signed/unsigned area vs exact rational shoelace; Rect/Triangle vs polygon form; collections sum; winding_order for every ring rotation and with repeated vertices vs sign of exact area; \
         orient(Default|Reversed); distinct = (hole-winding pattern, offset, scale, ring size)"
         .into();
     run.assumptions = vec!["tolerance 8 ulp(coordinate magnitude) x extent for areas (the shifted shoelace is exact on these inputs: measured deviation reported)".into()];
     let offs: [(f64, f64); 4] = [(0.0, 0.0), (1e8, 1e8), (-1e8, 3e7), (123456789.0, -987654321.0)];
-    let scales: [f64; 2] = [1.0, 1.0 / 1048576.0];
+    // exact power-of-two scales: area tolerances must be relative to the coordinate magnitude at every one of them
+    let scales: [f64; 5] = [1.0, 1.0 / 1048576.0, 1.0 / 1073741824.0, 2f64.powi(-200), 2f64.powi(60)];
     let np = polys.len();
     run.extra.insert("polygons".into(), json!(np));
     run.stage("polygon-area", np * offs.len() * scales.len(), |idx, acc| {
@@ -99,6 +100,15 @@ pub fn run(mut run: Run) -> i32 {
                 acc.viol("Polygon::unsigned_area != |signed_area|".into(), idx, || json!({"polygon": format!("{:?}", pg), "signed": sa, "unsigned": ua}));
             }
             // the f32 instantiation on the unshifted lattice (all values exact), winding order also for i64 (Area needs a float type)
+            if off == (0.0, 0.0) && scale != 1.0 && scale > 1e-10 && scale < 1e10 {
+                // f32 at the small scales: lattice coordinates times a power of two are exact in f32 and so is the area
+                let g32 = map_geom_g(&Geometry::Polygon(pg.clone()), &|c| Coord { x: c.x as f32, y: c.y as f32 });
+                acc.evals += 2;
+                let (a32, u32_) = (g32.signed_area() as f64, g32.unsigned_area() as f64);
+                if a32 != want || u32_ != want.abs() {
+                    acc.viol("Polygon<f32> area differs from the exact area on the scaled lattice".into(), idx, || json!({"polygon": format!("{:?}", pg), "exact": want, "signed_f32": a32, "unsigned_f32": u32_, "scale": scale}));
+                }
+            }
             if off == (0.0, 0.0) && scale == 1.0 {
                 let g32 = map_geom_g(&Geometry::Polygon(pg.clone()), &|c| Coord { x: c.x as f32, y: c.y as f32 });
                 let gi = map_geom_g(&Geometry::Polygon(pg.clone()), &|c| Coord { x: c.x as i64, y: c.y as i64 });
